@@ -7,7 +7,7 @@
    replayed into the real server by harness/drive/x03. *)
 EXTENDS LiveTimelineImplOps, LiveMpdOps, TLC, Json
 CONSTANTS Configs,     \* set of records c (LiveTimelineImplOps) + sampling fields grain, loops
-          Fix,         \* FALSE: the code as it is; TRUE: with the proposed vod0 fixes (proposed_fixes/X03-vod0-*.diff)
+          Fix,         \* TRUE: the present code; FALSE: the code before the vod0 fixes 27fa7f8 / 52d2ae2 (history, *_cex_vod0_* configs)
           EmitGen,     \* print GEN lines
           Seed         \* selects the thin sample of GEN cases away from breakpoints
 VARIABLES c, now
@@ -60,9 +60,10 @@ AgreeSeg(cc, r, k, i, nr, t) ==
       /\ (r.st = 425 /\ np.w >= 0 /\ ~r.efrag) => (r.early >= 0 /\ Near(sc, x, TooEarlyBy(sc, k, i, np)))
       /\ (r.st = 425 /\ np.w < 0) => (Near(sc, x, TooEarlyBy(sc, k, i, np)) \/ Near(sc, x, TSub(P(sc), TZero, np)))
 
-\* known deviation classes of the code (open findings C02-vod0 / C05-vod0): a VoD representation whose first decode time is not 0
+\* HISTORY (Fix = FALSE, the code before 27fa7f8 / 52d2ae2; findings C02-vod0 / C05-vod0 / X03-vod0-*): the deviation classes of a
+\* VoD representation whose first decode time is not 0.  With Fix = TRUE the *All invariants hold without these restrictions.
 Vod0Zero(cc) == cc.vod0 = 0
-\* ... for $Time$ lookups only the layouts in which a VoD segment starts at or beyond vod0-less loop end are affected
+\* ... for $Time$ lookups only the layouts in which a VoD segment starts at or beyond vod0-less loop end were affected
 StartsInsideLoop(cc) == \A i \in 0..(cc.N - 1) : SegStart(cc, i) < RepDuration(cc)
 
 InvLookupNr ==
@@ -74,10 +75,11 @@ TimeAgree(cc, tm, t) ==
    LET sc == Sc(cc)
        r  == LookupTime(cc, tm, t)
        x  == IdxOfStart(sc, TNorm(L(sc), 0, tm))
-   IN IF x[1] >= 0 THEN AgreeSeg(cc, r, x[1], x[2], cc.snr + x[1] * cc.N + x[2], t)
+   IN IF Refused(cc) THEN r.st = 400                      \* ato_inf + SegmentTimeline: the configuration is a bad request
+      ELSE IF x[1] >= 0 THEN AgreeSeg(cc, r, x[1], x[2], cc.snr + x[1] * cc.N + x[2], t)
       ELSE r.st # 200                                     \* a time that is no segment start is never served
-InvLookupTime    == StartsInsideLoop(c) => \A tm \in TimeSet(c, now) : TimeAgree(c, tm, now)
-InvLookupTimeAll == \A tm \in TimeSet(c, now) : TimeAgree(c, tm, now)            \* (as-written counterexample config)
+InvLookupTimeAll == \A tm \in TimeSet(c, now) : TimeAgree(c, tm, now)
+InvLookupTime    == StartsInsideLoop(c) => InvLookupTimeAll                        \* (history: what held before 27fa7f8)
 
 (* ---- agreement of the generated timeline with LiveMpdOps (C02.contig / grid / last / first / nr, C05.pt_le_now / pt_edge) *)
 Raw5(cc, S) == [j \in 1..Len(S) |-> LET tp == TNorm(L(Sc(cc)), 0, S[j][2]) IN <<S[j][1], tp.w, tp.r, S[j][3], S[j][4]>>]
@@ -106,7 +108,7 @@ Judged(cc, t) == cc.ato >= 0 /\ ~BeforeStart(cc, t)
 \* structural clauses hold for every layout ...
 InvTimelineShape == Judged(c, now) => LET v == TlView(c, now) IN
    v.tl.st = 200 /\ TlContig(v) /\ TlGrid(c, v) /\ TlNr(c, v) /\ TlFirst(c, v, now)
-\* ... the live edge and publishTime only for vod0 = 0 (open findings C02-vod0, C05-vod0)
+\* ... the live edge and publishTime (before 52d2ae2 only for vod0 = 0: InvTimelineEdge)
 InvTimelineEdge == (Judged(c, now) /\ Vod0Zero(c)) => LET v == TlView(c, now) IN TlLast(c, v, now) /\ TlPt(c, v, now)
 InvTimelineEdgeAll == Judged(c, now) => LET v == TlView(c, now) IN TlLast(c, v, now) /\ TlPt(c, v, now)
 \* the MPD and the segment server agree (C02.served / C02.edge): every listed segment is served 200 at the same instant
@@ -162,7 +164,7 @@ Emit == EmitGen =>
    LET qs == { c.snr + n : n \in NrIdx(c, now) } \cup (IF c.snr > 0 THEN {c.snr - 1} ELSE {})
        nr == { [q |-> q, r |-> LookupNr(c, q, now)] : q \in { x \in qs : PickNr(c, x, now) } }
        tm == { [q |-> q, r |-> LookupTime(c, q, now)] : q \in { x \in TimeSet(c, now) : PickTm(c, x, now) } }
-       tl == IF c.ato >= 0 /\ PickTl(c, now) THEN { Timeline(c, now) } ELSE {}
+       tl == IF PickTl(c, now) THEN { Timeline(c, now) } ELSE {}
    IN IF nr = {} /\ tm = {} /\ tl = {} THEN TRUE
       ELSE PrintT("GEN" \o ToJson([k |-> Key(c), now |-> now, nr |-> nr, tm |-> tm, tl |-> tl]))
 
